@@ -15,6 +15,9 @@ import (
 
 type C11Case struct {
 	Blocks []Block `json:"blocks"`
+	// High > 0: a second stump holding High opaque leaves in front of the same forest gets the same
+	// blocks (positions shifted into its layout); its UpdateData must be the shifted expectation.
+	High uint64 `json:"high,omitempty"`
 }
 
 // survivorHash is the hash of the pre-block node n once the given slots are deleted:
@@ -175,6 +178,10 @@ func runC11(c C11Case) *Result {
 	res := &Result{}
 	f := &model.Forest{}
 	var st u.Stump
+	big := u.Stump{Roots: highRoots(c.High), NumLeaves: c.High}
+	if c.High != 0 {
+		res.class(fmt.Sprintf("embedded:rows=%d", model.Rows(c.High+1)))
+	}
 	for i, b := range c.Blocks {
 		for _, s := range b.Del {
 			if s < 0 || s >= len(f.Dead) || f.Dead[s] {
@@ -213,6 +220,50 @@ func runC11(c C11Case) *Result {
 			return res.failf("%s: NewAddPos/NewAddHash = %s, expected %s", where, fmtPH(gotAdd), fmtPH(wantAdd))
 		}
 		applyToModel(f, b)
+		if c.High != 0 {
+			if !highOK(c.High, f.N()) {
+				return res.failf("case error: %d leaves do not fit below the opaque trees of %d leaves", f.N(), c.High)
+			}
+			v2 := f.View()
+			bp := u.Proof{Targets: embedAll(proof.Targets, v, c.High), Proof: cloneHashes(proof.Proof)}
+			bud, err := big.Update(cloneHashes(delH), cloneHashes(addH), bp)
+			bw := fmt.Sprintf("%s, embedded behind %d opaque leaves (%d rows)", where, c.High, model.Rows(c.High+f.N()))
+			if err != nil {
+				return res.failf("%s: Stump.Update rejects the block although the small stump accepts it: %v", bw, err)
+			}
+			if bud.PrevNumLeaves != c.High+wantPrevN {
+				return res.failf("%s: PrevNumLeaves = %d, want %d", bw, bud.PrevNumLeaves, c.High+wantPrevN)
+			}
+			if wd := embedAll(wantDestroy, v2, c.High); !eqU64(bud.ToDestroy, wd) && !(len(bud.ToDestroy) == 0 && len(wd) == 0) {
+				return res.failf("%s: ToDestroy = %v, the additions overwrite the empty roots %v", bw, bud.ToDestroy, wd)
+			}
+			embPH := func(x []posHash, view *model.View) []posHash {
+				out := make([]posHash, len(x))
+				for i, e := range x {
+					out[i] = posHash{embedPos(e.pos, view, c.High), e.h}
+				}
+				return out
+			}
+			gd, err := zipPH(bud.NewDelPos, bud.NewDelHash)
+			if err != nil {
+				return res.failf("%s: NewDelPos/NewDelHash: %v", bw, err)
+			}
+			if wdl := embPH(wantDel, v); !eqPH(gd, wdl) {
+				return res.failf("%s: NewDelPos/NewDelHash = %s, expected %s", bw, fmtPH(gd), fmtPH(wdl))
+			}
+			ga, err := zipPH(bud.NewAddPos, bud.NewAddHash)
+			if err != nil {
+				return res.failf("%s: NewAddPos/NewAddHash: %v", bw, err)
+			}
+			if wa := embPH(wantAdd, v2); !eqPH(ga, wa) {
+				return res.failf("%s: NewAddPos/NewAddHash = %s, expected %s", bw, fmtPH(ga), fmtPH(wa))
+			}
+			wantRoots := append(highRoots(c.High), v2.Roots...)
+			if big.NumLeaves != c.High+v2.N || !eqHashes(big.Roots, wantRoots) {
+				return res.failf("%s: the embedded stump ends with %d leaves and roots %s, want %d and %s", bw, big.NumLeaves, shortHs(big.Roots), c.High+v2.N, shortHs(wantRoots))
+			}
+			res.count("embedded_blocks", 1)
+		}
 		if len(b.Del) >= 1 && b.Add >= 2 {
 			res.NonTrivial = true
 			res.count("nontrivial_blocks", 1)
@@ -229,5 +280,9 @@ func runC11(c C11Case) *Result {
 }
 
 func TestC11(t *testing.T) {
-	runSpec(t, Spec[C11Case]{ID: "C11", Gen: func(t *rapid.T) C11Case { return C11Case{Blocks: genC07(t).Blocks} }, Run: runC11})
+	runSpec(t, Spec[C11Case]{ID: "C11", Gen: func(t *rapid.T) C11Case {
+		c := C11Case{Blocks: genC07(t).Blocks}
+		c.High = genHigh(t, tierLimits().maxLeaves)
+		return c
+	}, Run: runC11})
 }
